@@ -110,3 +110,41 @@ Definition ic_verdict (c : ic_case) : verdict :=
       else if existsb (fun v => match v with Differ => true | _ => false end) vs then Differ
       else ModelUndefined
   end.
+
+(* ---- netlists (C01, C02, C03, C08, ...) ---- *)
+From Lekkersim Require Import Network Solve.
+
+Record net_case := {
+  nc_comps : list (nat * nat * lmx);          (* id, ports, matrix in pin order *)
+  nc_conns : list conn;
+  nc_expo  : list spin;                       (* exposed pins, in the order of the observation *)
+  nc_sched : option (list (nat * nat));       (* None: the model's own sequential schedule *)
+  nc_obs   : obs lmx                          (* observed coefficients between exposed pins *)
+}.
+
+Definition net_of (c : net_case) : netlist BQCf :=
+  {| comps := map (fun t => match t with (id, n, M) => {| c_id := id; c_n := n; c_S := mxl M |} end)
+                  (nc_comps c);
+     conns := nc_conns c; expo := nc_expo c |}.
+
+Definition net_solve (c : net_case) : result (lst BQCf) :=
+  solve (net_of c)
+        (match nc_sched c with Some s => s | None => seq_sched (length (nc_comps c)) end).
+
+Definition expo_close (tol : bigQ) (T : lst BQCf) (ex : list spin) (o : lmx) : bool :=
+  Nat.eqb (length o) (length ex) &&
+  forallb (fun i => let r := nth i o [] in
+     Nat.eqb (length r) (length ex) &&
+     forallb (fun j => cclose tol (coeff T (nth i ex dpin) (nth j ex dpin)) (nth j r c0))
+             (seq 0 (length ex))) (seq 0 (length ex)).
+
+Definition net_verdict (c : net_case) : verdict :=
+  match net_solve c, nc_obs c with
+  | Ok T, Obs o =>
+      if forallb (fun p => mem p (l_pins T)) (nc_expo c) then
+        if expo_close tol9 T (nc_expo c) o then Agree else Differ
+      else Differ
+  | Ok _, Raised => ImplError
+  | Err _, Raised => BothReject
+  | Err _, Obs _ => ModelUndefined
+  end.
